@@ -35,7 +35,7 @@ BOUNDS = {
 }
 OUTSIDE = ["operator `in` (Python coerces __contains__ to bool; not in the property's operator table)",
            "list_ inside binary expressions (BinExpr passes a single argument to its operands)",
-           "float contexts; negative exponents; exponents > 3 and shift counts > 6 when symbolic"]
+           "float contexts; negative exponents; exponents > 3 and shift counts > 6 when symbolic; repetition counts of text / bytes constants outside -3..4"]
 ASSUMPTIONS = ["oracle: native Python operators applied to the same symbolic leaves (symx proxies implement Python int semantics)"]
 
 # leaves of this-family trees
@@ -78,6 +78,8 @@ def spell(t):
         return repr(t[1])
     if k == "func":
         return "%s(this.%s)" % (t[1], t[2])
+    if k == "fn":
+        return "%s(%s)" % (t[1], spell(t[2]))
     if k == "un":
         return "(%s%s)" % (t[1], spell(t[2]))
     if k == "bin":
@@ -92,7 +94,7 @@ def is_const(t):
 def has_placeholder(t):
     if t[0] in ("this", "item", "up", "obj", "func"):
         return True
-    if t[0] == "un":
+    if t[0] in ("un", "fn"):
         return has_placeholder(t[2])
     if t[0] == "bin":
         return has_placeholder(t[2]) or has_placeholder(t[3])
@@ -105,7 +107,7 @@ def ops_ok(t):
     (float results from symbolic bases are outside the bounds); no str-constant % expr
     (str.__mod__ accepts any object, so such an expression cannot even be built)"""
     k = t[0]
-    if k == "un":
+    if k in ("un", "fn"):
         return has_placeholder(t[2]) and ops_ok(t[2])
     if k == "bin":
         if not has_placeholder(t):
@@ -125,7 +127,7 @@ def ops_ok(t):
 def has_truediv(t):
     if t[0] == "bin":
         return t[1] == "/" or has_truediv(t[2]) or has_truediv(t[3])
-    if t[0] == "un":
+    if t[0] in ("un", "fn"):
         return has_truediv(t[2])
     return False
 
@@ -178,6 +180,21 @@ def trees(tier, seed):
                         out.append(("un", u, ("bin", op, a, b)))
                         out.append(("bin", op, ("un", u, a), b)) if has_placeholder(a) else None
                         out.append(("bin", op, a, ("un", u, b))) if has_placeholder(b) else None
+    # helper functions applied to operator trees (operands that are themselves parenthesised), and nested inside operators
+    A, B3 = ("this", "a"), ("item", "b")
+    for inner in (("bin", "*", ("bin", "-", A, ("const", 1)), ("const", 2)), ("bin", "*", ("bin", "-", A, ("const", 1)), ("bin", "+", B3, ("const", 2))),
+                  ("bin", "-", ("const", 3), ("bin", "*", A, B3)), ("un", "-", ("bin", "+", A, B3)), ("bin", "+", ("un", "-", A), ("un", "~", B3)), ("bin", "-", A, B3)):
+        out.append(("fn", "abs_", inner))
+        out.append(("bin", "+", ("fn", "abs_", inner), ("const", 1)))
+        out.append(("bin", "*", ("const", 2), ("fn", "abs_", inner)))
+        out.append(("un", "-", ("fn", "abs_", inner)))
+    # chains of the same operator with constants of different kinds (nothing may be folded across them)
+    for c1, c2 in ((-1, "ab"), (2, "ab"), (0, "x"), (-1, b"\x00z"), (3, -1), (2, True)):
+        out.append(("bin", "*", ("bin", "*", A, ("const", c1)), ("const", c2)))
+        out.append(("bin", "*", ("const", c2), ("bin", "*", ("const", c1), A)))
+    for c1, c2 in ((1, 2), (-1, 255), (True, 3)):
+        for op in ("+", "&", "|", "^"):
+            out.append(("bin", op, ("bin", op, A, ("const", c1)), ("const", c2)))
     # binary over binary: seeded sample
     n = 480 if tier == "quick" else 6000
     for _ in range(n):
@@ -233,6 +250,8 @@ def build_expr(C, t):
         return t[1]
     if k == "func":
         return getattr(C, t[1])(getattr(C.this, t[2]))
+    if k == "fn":
+        return getattr(C, t[1])(build_expr(C, t[2]))
     if k == "un":
         return UNF_EXPR[t[1]](build_expr(C, t[2]))
     if k == "bin":
@@ -256,6 +275,8 @@ def native(t, env):
         return t[1]
     if k == "func":
         return FUNCS[t[1]](env[t[2]])
+    if k == "fn":
+        return FUNCS[t[1]](native(t[2], env))
     if k == "un":
         return UNF[t[1]](native(t[2], env))
     if k == "bin":
@@ -266,11 +287,20 @@ def native(t, env):
 def guards(ctx, t, env):
     """assumptions that keep shifts / powers inside the stated bounds (depend on operand values)"""
     k = t[0]
-    if k == "un":
+    if k in ("un", "fn"):
         guards(ctx, t[2], env)
     elif k == "bin":
         guards(ctx, t[2], env)
         guards(ctx, t[3], env)
+        if t[1] == "*":
+            for x, y in ((t[2], t[3]), (t[3], t[2])):
+                if is_const(x) and isinstance(x[1], (str, bytes)) and not is_const(y):
+                    try:
+                        r = native(y, env)
+                    except Exception:
+                        return
+                    if type(r).__name__ in ("SymInt",):
+                        ctx.assume(api.and_terms([r >= -3, r <= 4]))          # repetition counts: a fork per value
         if t[1] in ("<<", ">>", "**") and not is_const(t[3]):
             try:
                 r = native(t[3], env)
